@@ -462,6 +462,15 @@ pub fn vary_transport(rng: &mut Rng, case: &mut Case) {
         case.handshake = random_handshake(&mut r).0;
     }
     case.via_run_on_stream = r.chance(1, 5);
+    // request sequence ids are the client's choice
+    if r.chance(1, 4) {
+        for c in case.cmds.iter_mut() {
+            c.seq = match r.below(3) {
+                0 => 255 - r.below(3) as u8,
+                _ => r.below(256) as u8,
+            };
+        }
+    }
     // every eighth case travels over a TLS upgrade (its own handshake; not under Miri: native crypto)
     case.over_tls = !cfg!(miri) && r.chance(1, 8) && case.tls.is_none() && case.fault.err_at.is_none() && case.fault.eof_after.is_none();
     if r.chance(1, 3) {
